@@ -78,4 +78,36 @@ theorem logRecordF_heap (s : FHeap) (f : Nat) (v : Val) :
   rw [h2]
   cases hv : (wrapTyped s.h v).2 <;> simp [h1]
 
+/-- no nil `*errs.Error` is the value itself or sits at the bottom of its foreign wrappers -/
+def nilFree : Val → Bool
+  | .typedNil => false
+  | .fwrap _ _ inner => nilFree inner
+  | _ => true
+
+theorem isWalk_no_panic (h : Heap) (cmp : Val → Bool) (t : Val)
+    (hh : ∀ (i : Nat) (n : ENode), h[i]? = some n → nilFree n.cause = true) :
+    ∀ (fuel : Nat) (v : Val), nilFree v = true → isWalk h cmp t fuel v ≠ .panics := by
+  intro fuel
+  induction fuel with
+  | zero => intro v _; simp [isWalk]
+  | succ f ih =>
+    intro v hv
+    unfold isWalk
+    split
+    · simp
+    · split
+      · simp
+      · cases v with
+        | typedNil => simp [nilFree] at hv
+        | ref id =>
+          simp only []
+          apply ih
+          cases hx : h[id]? with
+          | none => simp [unwrap, hx, nilFree]
+          | some n => simp only [unwrap, hx]; exact hh id n hx
+        | fwrap u m inner => simp only []; exact ih inner (by simpa [nilFree] using hv)
+        | nilIface => simp
+        | foreignNil => simp
+        | plain u m => simp
+
 end Errs
